@@ -320,12 +320,33 @@ def run_replay(chk, path):
     return 1 if fails else 0
 
 
+def run_setup():
+    """MANIFEST.setup_cmd: build the Lean modules and drivers of every claimed property."""
+    man = json.load(open(os.path.join(VERIF, "MANIFEST.json")))
+    targets = []
+    for c in man["checks"]:
+        chk = importlib.import_module("props." + c["property_id"].lower()).CHECK
+        try:
+            chk.regenerate(Ctx("quick", 0))
+        except Exception as e:
+            print("regenerate failed for", chk.id, e)
+        for t in list(chk.lean_modules) + list(chk.drivers):
+            if t not in targets:
+                targets.append(t)
+    ok, log, dt = lean.lake_build(targets)
+    print(log[-3000:])
+    print(f"setup: built {len(targets)} targets in {dt:.0f}s: {'ok' if ok else 'FAILED'}")
+    return 0 if ok else 1
+
+
 def main(argv=None):
     ap = argparse.ArgumentParser()
     ap.add_argument("property")
     ap.add_argument("--tier", default=os.environ.get("VERIF_TIER", "quick"), choices=["quick", "thorough"])
     ap.add_argument("--replay")
     a = ap.parse_args(argv)
+    if a.property == "setup":
+        return run_setup()
     seed = int(os.environ.get("VERIF_SEED", "0") or 0)
     mod = importlib.import_module("props." + a.property.lower())
     chk = mod.CHECK
